@@ -177,6 +177,8 @@ inline char*& progress_shm() { static char* p = nullptr; return p; }
 static const size_t PROGRESS_CAP = 1 << 20;
 inline void progress(const std::string& replay_body) { char* p = progress_shm(); if (!p) return; size_t n = std::min(replay_body.size(), PROGRESS_CAP - 1); memcpy(p, replay_body.data(), n); p[n] = 0; }
 
+// optional: called in the reporting parent when the exploring child died, before the result is written (e.g. to collect sanitizer logs)
+inline std::function<void(Result&)>& on_child_crash() { static std::function<void(Result&)> f; return f; }
 inline int run_main(int argc, char** argv, const std::string& property, const std::function<void(Result&)>& explore,
                     const std::function<int(const Replay&, Result&)>& replay) {
     Args a = parse_args(argc, argv);
@@ -208,6 +210,7 @@ inline int run_main(int argc, char** argv, const std::string& property, const st
         R.exhaustive = false; R.sample(jesc(last.substr(0, 300)));
         std::string one = last; for (char& ch : one) if (ch == '\n') ch = ' ';
         R.violation("crash:" + how, "the code under test terminated the exploration (" + how + ") while executing the case: " + one.substr(0, 400), last);
+        if (on_child_crash()) on_child_crash()(R);
         R.write();
     }
     return 0;
